@@ -25,6 +25,7 @@ thread_local! {
     static ABORT: Cell<Abort> = const { Cell::new(Abort::None) };
     static QUIESCES: Cell<u64> = const { Cell::new(0) };
     static SPINS: Cell<u64> = const { Cell::new(0) };
+    static ARM_EPOCH: Cell<u64> = const { Cell::new(0) };
 }
 
 #[derive(Copy, Clone, Debug, PartialEq, Eq)]
@@ -64,6 +65,7 @@ impl Driver for HDriver {
 
     fn run(&self, rt: &Runtime) -> std::io::Result<()> {
         let mut armed: u64 = 0;
+        let mut last_epoch: u64 = u64::MAX;
         loop {
             match rt.poll() {
                 PollResult::Ready => return Ok(()),
@@ -78,6 +80,12 @@ impl Driver for HDriver {
                     // run queue non-empty for ever. If the controller has been waiting for
                     // quiescence for SPIN_LIMIT polls, hand control back to it and remember that
                     // this quiescence was only "nothing but a spinner is runnable".
+                    let epoch = ARM_EPOCH.with(Cell::get);
+                    if epoch != last_epoch {
+                        // a new quiescence wait started: count from zero
+                        last_epoch = epoch;
+                        armed = 0;
+                    }
                     if QUIESCE.with(|q| q.borrow().is_some()) {
                         armed += 1;
                         if armed > SPIN_LIMIT {
@@ -192,6 +200,7 @@ impl Future for Quiesce {
             Poll::Ready(())
         } else {
             self.0 = true;
+            ARM_EPOCH.with(|e| e.set(e.get() + 1));
             QUIESCE.with(|q| *q.borrow_mut() = Some(cx.waker().clone()));
             Poll::Pending
         }
